@@ -117,7 +117,7 @@ add("C20", "TestC20", "exploration",
     "Trusted: legacy writers for the legacy layouts.", "snapshot + differential property-based testing (rapid)", "DESIGN.md §4 C20")
 
 add("C12", "TestC12", "exploration",
-    dict(cases=24000, shards=8, extra=[dict(test="TestC12Regular", shards=4), dict(test="TestC12Million", shards=1)]), dict(cases=600000, shards=16, timeout_s=3000, extra=[dict(test="TestC12Regular", shards=8, timeout_s=3000), dict(test="TestC12Million", shards=1, timeout_s=3000)]),
+    dict(cases=24000, shards=8, extra=[dict(test="TestC12Regular", shards=4), dict(test="TestC12Million", shards=1), dict(test="TestC12ConcurrentBuilds", shards=1)]), dict(cases=600000, shards=16, timeout_s=3000, extra=[dict(test="TestC12Regular", shards=8, timeout_s=3000), dict(test="TestC12Million", shards=1, timeout_s=3000), dict(test="TestC12ConcurrentBuilds", shards=1, timeout_s=3000)]),
     "sorted record sets (keys K1..K7/Krand with arbitrary bytes, distinct payloads), either one strictly increasing offset per key (Get) or block offsets with block size 2..64 and drawn gaps (RangeGet); reader = map offset -> block that returns a record only when the key is in that block; queries = all keys and Q(keys); non-trivial = the reader had to reject at least one lookup (the underlying trie returned an offset for an absent key)",
     "Generated-input search against an exact map model: every indexed key returns its own record, every other string is not found.",
     "Trusted: the verifying reader written in the harness.", RAPID.replace("sorted-map", "map"), "DESIGN.md §4 C12")
@@ -131,8 +131,8 @@ add("C15", "TestC15", "exploration",
     "exhaustive enumeration of small integer domains + property-based testing (rapid) with an independent reference encoder", "DESIGN.md §4 C15")
 
 add("C16", "TestC16", "exploration",
-    dict(cases=40000, shards=8, extra=[dict(test="TestC16Exhaustive", shards=8)]),
-    dict(cases=400000, shards=16, timeout_s=3000, extra=[dict(test="TestC16Exhaustive", shards=16, timeout_s=3000)]),
+    dict(cases=40000, shards=8, extra=[dict(test="TestC16Exhaustive", shards=8), dict(test="TestC16ConcurrentInits", shards=1)]),
+    dict(cases=400000, shards=16, timeout_s=3000, extra=[dict(test="TestC16Exhaustive", shards=16, timeout_s=3000), dict(test="TestC16ConcurrentInits", shards=1, timeout_s=3000)]),
     "exhaustive: every index set of <= 3 elements within 2-3 bitmap words and every 2-element set within 5 words, every index of the span probed; rapid: ascending index sets in [0, 2^20) (empty, single, dense runs, sparse, clusters separated by empty 64-bit words, word-boundary indexes) x element kinds U16/U32/U64/I16/I32/I64 (edge and random values) and a fixed-size struct via array.New; probes = every index of the span when span <= 4096, else listed +-1, word boundaries and drawn; 1/3 invalid inputs (equal/descending neighbours at a drawn position, length off by 1..5); non-trivial = an empty bitmap word between populated words (or an invalid input)",
     "Generated-input search against a map[int32]T model: typed Get, raw GetBytes and generic Get agree with the model at every probe within the bitmap span, also after proto.Marshal -> proto.Unmarshal into the typed type and into array.NewEmpty(T); invalid input is rejected with the dedicated error, builds nothing, and a rejected Init leaves an existing array unchanged.",
     "Trusted: the map model. Probes beyond the bitmap span are not claimed (accessors index out of range there by design).",
